@@ -1,22 +1,48 @@
 import Pyrtma.Proofs.DataLog
 import Pyrtma.Proofs.DataLogFmt
 import Pyrtma.Proofs.DataLogLive
+import Pyrtma.Proofs.DataLogFineMain
+import Pyrtma.Proofs.DataLogFineLive
+import Pyrtma.Proofs.DataLogFiles
 /-!
 # C17 — the data logger loses, duplicates and reorders nothing
 
-Theorems about `Model/DataLog.lean` (the recording/writer handshake of `DataCollection` / `DataSet`) and
-`Model/DataLogFmt.lean` (the formatters and `QLReader.load`).
+Theorems about three models of `src/pyrtma/data_logger/*` and `utils/quicklogger_reader.py`:
 
-Quantification: **every** number of data sets, every selection of message types per data set, every
-sub-division interval and write period, every list of operations of the recording thread
-(`update(msg)`, `update(None)`, `pause()`, `resume()`, each with an arbitrary clock advance, followed by
-`stop()`), and **every schedule** — an arbitrary list over `{R, W}` saying which thread performs its next
-gated operation (event `set/clear/is_set/wait`, buffer swap, `DataSet.write`).  No bound on any of them.
+* **M10f `Model/DataLogFine.lean` — the granularity CPython guarantees** (round 2).  One step = ONE access to
+  an object both threads can reach: an `Event` operation, `Thread.is_alive()`, a read or write of a shared `DataSet`
+  attribute (`wbuf`, `subdivide_flag`, `collection_stopped`, `formatter`, `fd`), one list operation (`append`,
+  `clear`, one `__next__`), one file-system operation (`write`, each element of `writelines`, `seek`, `close`, `open`,
+  `NamedTemporaryFile`, `copyfileobj`).  List and file objects have identity (heap + references in locals); the
+  formatters' call structure is inside the model (plain / csv / quicklogger: passes over the batch, header rewrite,
+  both `finalize` paths, constructor writes); every file-system operation may fail (`Cfg.fault`: an arbitrary
+  predicate on the operation's global number) and raises on a closed file.  **No region is assumed atomic and there
+  is no lock in this code**: that the two events suffice is the theorem `fine_no_swap_under_writer`.
+  Theorems (`section fine`), all for EVERY configuration, operation list, failure pattern and EVERY interleaving of
+  single accesses: `fine_no_loss_no_dup_no_reorder` / `fine_complete_if_done`, `fine_no_swap_under_writer`,
+  `fine_writer_parked_while_recorder_owns`, `fine_loaded_references_current`, `fine_batch_stable`,
+  `fine_writer_never_dies` (no failure ⇒
+  nothing raises), `fine_failure_is_never_silent` / `fine_told_on_failure`, `fine_stop_waits_only_for_writer`,
+  `fine_stop_terminates_or_hangs`, `fine_stop_returns`, `fine_complete_after_fair_run`,
+  `fine_stop_terminates_patched`; and the defect C17-F3 exhibited: `stop_hangs_after_writer_death`,
+  `writer_death_is_the_only_hang`.
+* **M10 `Model/DataLog.lean` — the gated operations** (round 1; kept: it records the *batches* every file received,
+  which the composition needs, and carries `old_order_loses`, C17-F1): `no_loss_no_dup_no_reorder`,
+  `writer_never_dies`, `no_swap_under_writer`, `stop_waits_only_for_a_busy_writer`, `stop_returns`,
+  `complete_after_fair_run`.
+* **`Model/DataLogFmt.lean` + `Model/DataLogFiles.lean` — the formatters and readers, composed with the handshake**:
+  per format `raw_is_concat`, `raw_reads_back`, `json_lines_decode`, `ql_layout` (file header, message headers,
+  offset table, data block — whatever the partition into `write` calls), `ql_roundtrip`, `ql_file_of_batches`,
+  `ql_empty_file`; composed over whole sessions (every placement of arrivals, flushes, sub-divisions, pause / resume,
+  stop; every schedule; any number of files): `raw_files_read_back`, `ql_files_read_back`, `json_files_read_back`,
+  `json_lines_decode_to_messages`.
 
-What is *not* a theorem (see MANIFEST `level_claimed.text`): that the real threads can only be pre-empted
-at those gated operations; that the real classes behave like the model (differential check,
-`harness/datalog_corr.py`).  Termination of `stop()` is proved for the round-robin continuation the harness
-uses (`stop_returns`), not for an arbitrary fair scheduler.
+What is *not* a theorem (MANIFEST `level_claimed.text`): that the real classes behave like the models — decided
+by the differential check on every run (`harness/datalog_corr.py`, `harness/datalog_fine.py`: same schedule, same
+trace of accesses, same outcome, same files, byte for byte); that attributes outside the gated set are
+thread-local (audited on every run); termination for an arbitrary fair scheduler (proved for round-robin after an
+arbitrary prefix); `Message.from_json ∘ to_json = id` and the byte encodings (opaque `Enc`, hypotheses named); the
+msg_header (csv) formatter's text; more than one `start … stop` session per collection.
 -/
 namespace Pyrtma.C17
 open Pyrtma.DataLog
@@ -106,6 +132,222 @@ theorem old_order_loses :
     verdict (accepted .all false opsF1) ((run (cfg1 false) opsF1 schedF1).ds 0).files = "fail lost" := by
   decide +kernel
 
+/-! ### the same at the granularity CPython guarantees (`Model/DataLogFine.lean`)
+
+One step = one access to an object both threads can reach (event operation, `is_alive()`, read / write of a shared
+`DataSet` attribute, one list operation, one file-system operation); every file-system operation may fail
+(`Cfg.fault`, an arbitrary predicate on the operation's global number).  Schedules are arbitrary lists over
+`{R, W}` of these steps.  No region is assumed atomic and there is no lock: the exclusion is a theorem. -/
+
+section fine
+open Pyrtma.DataLog.Fine
+
+/-- **Exactly once, in arrival order — at single-access granularity.**  For every configuration (any number
+of data sets, selections, intervals, formatter classes, with or without the proposed `is_alive` patch), every
+failure pattern of the file system, every operation list and every interleaving of single accesses: when
+`stop()` has returned, the concatenation of the files of every data set is exactly the accepted sequence. -/
+theorem fine_no_loss_no_dup_no_reorder (c : Fine.Cfg) (ops : List RecOp) (sched : List Fine.Tid)
+    (hdone : (Fine.run c ops sched).rpc = .done) (i : Nat) (hi : i < c.n) :
+    complete (accepted (c.sel i) false ops) ((Fine.run c ops sched).ds i).fileLogs = true := by
+  have h := (Fine.run_inv c ops sched).at_done hdone i hi
+  simpa [complete, Fine.Ds.written] using h
+
+/-- The same through the Spec clause the driver evaluates on the implementation. -/
+theorem fine_complete_if_done (c : Fine.Cfg) (ops : List RecOp) (sched : List Fine.Tid) (o : Outcome)
+    (ho : outcomeOf c (Fine.run c ops sched) = some o) (i : Nat) (hi : i < c.n) :
+    completeIfDone o (accepted (c.sel i) false ops) ((Fine.run c ops sched).ds i).fileLogs = true := by
+  unfold completeIfDone
+  by_cases hd : (Fine.run c ops sched).rpc = .done
+  · simp [fine_no_loss_no_dup_no_reorder c ops sched hd i hi]
+  · have : o ≠ .done := by
+      intro e; subst e
+      unfold outcomeOf at ho
+      simp only [hd, if_false] at ho
+      split at ho <;> (try split at ho) <;> simp at ho
+    simp [this]
+
+/-- **Mutual exclusion is a theorem, not an assumption**: on every schedule, whenever the writer is anywhere
+between loading `self.formatter` for `ds[k].write()` and its last access of `subdivide()`, the recording thread
+is at a place where it touches neither a `wbuf` attribute, nor a staged list, nor a file object (start of an
+operation, `is_alive`, `rbuf.append`, `subdivide_flag = True`, `is_set`, the wait loop of `stop()`), and
+`write_to_disk` is set, `write_finished` clear.  The two events are the only synchronisation there is. -/
+theorem fine_no_swap_under_writer (c : Fine.Cfg) (ops : List RecOp) (sched : List Fine.Tid)
+    (ho : (Fine.run c ops sched).over = false) (k : Nat) (hk : wIdx (Fine.run c ops sched).wpc = some k) :
+    rcls (Fine.run c ops sched).rpc = .safe ∧ (Fine.run c ops sched).td = true ∧
+      (Fine.run c ops sched).fin = false ∧ k < c.n :=
+  (Fine.run_inv c ops sched).excl ho k hk
+
+/-- … and the other way round: while `trigger_write` swaps the buffers or `stop()` stages, finalises and closes,
+the writer is parked at `write_to_disk.wait()` or at the `write_to_disk.clear()` that ends its cycle. -/
+theorem fine_writer_parked_while_recorder_owns (c : Fine.Cfg) (ops : List RecOp) (sched : List Fine.Tid)
+    (ho : (Fine.run c ops sched).over = false) (hu : (rcls (Fine.run c ops sched).rpc).safe? = false) :
+    (Fine.run c ops sched).wpc = .wait ∨ (Fine.run c ops sched).wpc = .clrTD :=
+  (Fine.run_inv c ops sched).excl' ho hu
+
+/-- **References are never stale**: the list object and the formatter a thread has loaded into a local are
+still what `ds.wbuf` / `ds.formatter` refer to whenever it uses them, and the indices into the formatters'
+scripts of file operations are in range (so the model's "unreachable" branches are unreachable). -/
+theorem fine_loaded_references_current (c : Fine.Cfg) (ops : List RecOp) (sched : List Fine.Tid) :
+    WLoc c (Fine.run c ops sched) ∧ RLoc c (Fine.run c ops sched) :=
+  ⟨(Fine.run_inv c ops sched).wloc, (Fine.run_inv c ops sched).rloc⟩
+
+/-- **The batch a formatter method iterates is stable**: while the writer is inside `formatter.write(wbuf)` or
+`formatter.finalize(wbuf)` for data set `i`, whatever the recording thread does next leaves the list object the
+method was called with, and the attribute `wbuf`, as they are — both passes of the quicklogger formatter (headers,
+then payloads) and the `self.wbuf.clear()` that follows see one and the same list; and while `stop()`'s own
+`finalize` iterates, the writer changes no data set at all. -/
+theorem fine_batch_stable (c : Fine.Cfg) (ops : List RecOp) (sched : List Fine.Tid)
+    (ho : (Fine.run c ops sched).over = false) :
+    (∀ i, ((Fine.run c ops sched).wpc = .call i ∨ (Fine.run c ops sched).wpc = .dCall i) →
+      ((Fine.stepR c (Fine.run c ops sched)).ds i).lists (Fine.run c ops sched).wcall.l =
+        ((Fine.run c ops sched).ds i).lists (Fine.run c ops sched).wcall.l ∧
+      ((Fine.stepR c (Fine.run c ops sched)).ds i).wb = ((Fine.run c ops sched).ds i).wb ∧
+      (Fine.run c ops sched).wcall.l = ((Fine.run c ops sched).ds i).wb) ∧
+    (∀ j, (Fine.run c ops sched).rpc = .sCall j →
+      (Fine.stepW c (Fine.run c ops sched)).ds = (Fine.run c ops sched).ds ∧
+      (Fine.run c ops sched).rcall.l = ((Fine.run c ops sched).ds j).wb) :=
+  ⟨fun i hw => (Fine.run_inv c ops sched).batch_stable_W ho i hw,
+   fun j hr => (Fine.run_inv c ops sched).batch_stable_R ho j hr⟩
+
+/-- **Without file-system failures nothing raises**: the writer never dies (no write, seek or copy ever hits a
+closed file or a closed temp file) and neither `update` nor `stop` raises — on every schedule. -/
+theorem fine_writer_never_dies (c : Fine.Cfg) (hnf : ∀ k, c.fault k = false) (ops : List RecOp)
+    (sched : List Fine.Tid) :
+    (Fine.run c ops sched).wpc ≠ .dead ∧ (Fine.run c ops sched).rpc ≠ .raisedT ∧
+      (Fine.run c ops sched).rpc ≠ .raisedIO :=
+  Fine.run_noexc c ops sched hnf
+
+/-- **A failed file-system operation is never silent**: if any operation was made to fail, the thread that
+performed it has been stopped by the exception, and `stop()` does not return normally — it raises (recorder's
+own operation; or, with the patch, `DataCollectionThreadError`), `update` raises, or (code as it is) `stop()`
+hangs: see below. -/
+theorem fine_failure_is_never_silent (c : Fine.Cfg) (ops : List RecOp) (sched : List Fine.Tid)
+    (hf : firedB c (Fine.run c ops sched) = true) :
+    ((Fine.run c ops sched).wpc = .dead ∨ (Fine.run c ops sched).rpc = .raisedIO) ∧
+      (Fine.run c ops sched).rpc ≠ .done := by
+  have ht := Fine.run_told c ops sched ((firedB_iff _ _).1 hf)
+  refine ⟨ht, fun hd => ?_⟩
+  rcases ht with h | h
+  · exact (Fine.run_inv c ops sched).done_not_dead hd h
+  · rw [hd] at h; cases h
+
+/-- the Spec clause `toldOnFailure` holds for every outcome of every run -/
+theorem fine_told_on_failure (c : Fine.Cfg) (ops : List RecOp) (sched : List Fine.Tid) (o : Outcome)
+    (ho : outcomeOf c (Fine.run c ops sched) = some o) :
+    toldOnFailure (firedB c (Fine.run c ops sched)) o = true := by
+  unfold toldOnFailure
+  cases hf : firedB c (Fine.run c ops sched)
+  · simp
+  · have := (fine_failure_is_never_silent c ops sched hf).2
+    have : o ≠ .done := by
+      intro e; subst e
+      unfold outcomeOf at ho
+      simp only [this, if_false] at ho
+      split at ho <;> (try split at ho) <;> simp at ho
+    simp [this]
+
+/-- **The only thing that can keep `stop()` waiting**: in its wait loop, either `write_finished` is set, or
+`write_to_disk` is set and the writer is inside a cycle that ends by setting it — or dead. -/
+theorem fine_stop_waits_only_for_writer (c : Fine.Cfg) (ops : List RecOp) (sched : List Fine.Tid)
+    (hr : waiting (Fine.run c ops sched).rpc = true) :
+    (Fine.run c ops sched).fin = true ∨
+      ((Fine.run c ops sched).td = true ∧ (Fine.run c ops sched).wpc ≠ .clrTD) := by
+  rcases (Fine.run_inv c ops sched).wait_reason hr with h | h | h
+  · exact Or.inl h
+  · exact Or.inr ⟨h.1, h.2.1⟩
+  · exact Or.inr ⟨h.1, by rw [h.2.1]; simp⟩
+
+/-! #### liveness at single-access granularity, file-system failures included -/
+
+/-- **The session ends, or hangs behind a dead writer — nothing else.**  For every configuration, every failure
+pattern, every operation list, after ANY schedule prefix of single accesses: continuing round-robin for
+`(11 n + 7) · #operations + 60 n + 10` rounds, either the session is over (`stop()` returned, or an exception
+reached the caller of `update` / `stop`), or the recording thread sits in the wait loop of `stop()` behind a writer
+that an exception has killed.  (Variant function `Proofs/DataLogFineLive.lean: mu`: no step of either thread
+increases it, every `R; W` round decreases it.) -/
+theorem fine_stop_terminates_or_hangs (c : Fine.Cfg) (ops : List RecOp) (sched : List Fine.Tid) (N : Nat)
+    (hN : (11 * c.n + 7) * ops.length + (60 * c.n + 10) ≤ N) :
+    (Fine.run c ops (sched ++ Fine.roundRobin N)).over = true ∨
+      (Fine.run c ops (sched ++ Fine.roundRobin N)).hung c = true := by
+  unfold Fine.run
+  rw [List.foldl_append]
+  apply Fine.rr_terminates (all := ops) N _ (Fine.foldl_inv sched _ (Fine.inv_init c ops))
+  have := Fine.foldl_mu_le (c := c) (all := ops) sched _ (Fine.inv_init c ops)
+  rw [Fine.mu_init] at this
+  omega
+
+/-- **`stop()` returns** when no file-system operation fails: the premise of `fine_no_loss_no_dup_no_reorder` is
+met by every fair run, at single-access granularity. -/
+theorem fine_stop_returns (c : Fine.Cfg) (hnf : ∀ k, c.fault k = false) (ops : List RecOp) (sched : List Fine.Tid)
+    (N : Nat) (hN : (11 * c.n + 7) * ops.length + (60 * c.n + 10) ≤ N) :
+    (Fine.run c ops (sched ++ Fine.roundRobin N)).rpc = .done := by
+  have hne := fine_writer_never_dies c hnf ops (sched ++ Fine.roundRobin N)
+  rcases fine_stop_terminates_or_hangs c ops sched N hN with h | h
+  · simp only [State.over, Bool.or_eq_true, beq_iff_eq] at h
+    rcases h with (h | h) | h
+    · exact h
+    · exact absurd h hne.2.1
+    · exact absurd h hne.2.2
+  · simp [State.hung, hne.1] at h
+
+/-- … and then every file of every data set is complete (no premise left but "no file-system failure"). -/
+theorem fine_complete_after_fair_run (c : Fine.Cfg) (hnf : ∀ k, c.fault k = false) (ops : List RecOp)
+    (sched : List Fine.Tid) (N : Nat) (hN : (11 * c.n + 7) * ops.length + (60 * c.n + 10) ≤ N) (i : Nat)
+    (hi : i < c.n) :
+    complete (accepted (c.sel i) false ops) ((Fine.run c ops (sched ++ Fine.roundRobin N)).ds i).fileLogs = true :=
+  fine_no_loss_no_dup_no_reorder c ops _ (fine_stop_returns c hnf ops sched N hN) i hi
+
+/-- **With the proposed patch `stop()` always terminates**, whatever fails and whenever: it returns or raises
+(the Spec clause `terminates` holds for every outcome).  Without the patch the same statement is false:
+`stop_hangs_after_writer_death`. -/
+theorem fine_stop_terminates_patched (c : Fine.Cfg) (ha : c.aliveCheck = true) (ops : List RecOp)
+    (sched : List Fine.Tid) (N : Nat) (hN : (11 * c.n + 7) * ops.length + (60 * c.n + 10) ≤ N) :
+    (Fine.run c ops (sched ++ Fine.roundRobin N)).over = true ∧
+      ∀ o, outcomeOf c (Fine.run c ops (sched ++ Fine.roundRobin N)) = some o → terminates o = true := by
+  have hnh : (Fine.run c ops (sched ++ Fine.roundRobin N)).hung c = false := by simp [State.hung, ha]
+  rcases fine_stop_terminates_or_hangs c ops sched N hN with h | h
+  · refine ⟨h, fun o ho => ?_⟩
+    unfold outcomeOf at ho
+    rw [hnh] at ho
+    split at ho
+    · cases ho; rfl
+    · split at ho
+      · cases ho; rfl
+      · simp at ho
+  · rw [hnh] at h; cases h
+
+/-! #### C17-F3: `stop()` hangs once the writer has died -/
+
+def cfgF3 : Fine.Cfg :=
+  { n := 1, sel := fun _ => .all, interval := fun _ => 0, kind := fun _ => .plain, fault := fun k => k == 0 }
+def opsF3 : List RecOp := [.update 16 ⟨1, 0⟩, .update 16 ⟨2, 1⟩]
+
+/-- Round-robin, the first file-system operation of the session (the writer's `fd.write` of message 1) fails:
+after 22 rounds the writer is dead, the recording thread is in the wait loop of `stop()` with `write_finished`
+clear — and stays there for every continuation whatsoever. -/
+theorem stop_hangs_after_writer_death (l : List Fine.Tid) :
+    let s := (Fine.run cfgF3 opsF3 (Fine.roundRobin 22 ++ l))
+    s.wpc = .dead ∧ s.rpc = .sWait ∧ s.fin = false ∧ s.over = false := by
+  have h0 : (Fine.run cfgF3 opsF3 (Fine.roundRobin 22)).hung cfgF3 = true := by decide +kernel
+  have h1 : (Fine.run cfgF3 opsF3 (Fine.roundRobin 22 ++ l)).hung cfgF3 = true := by
+    unfold Fine.run; rw [List.foldl_append]; exact hung_forever _ l h0
+  have h2 := hung_not_over _ h1
+  simp only [State.hung, Bool.and_eq_true, beq_iff_eq, Bool.not_eq_true'] at h1
+  exact ⟨h1.1.2, h1.1.1.1, h1.1.1.2, h2⟩
+
+/-- … and a dead writer is the only way to get there: a hang state has a dead writer (by definition), and the
+writer only dies of a failed file-system operation (`fine_writer_never_dies`). -/
+theorem writer_death_is_the_only_hang (c : Fine.Cfg) (hnf : ∀ k, c.fault k = false) (ops : List RecOp)
+    (sched : List Fine.Tid) : (Fine.run c ops sched).hung c = false := by
+  have := (fine_writer_never_dies c hnf ops sched).1
+  simp [State.hung, this]
+
+/-- with the proposed patch the same run ends: `stop()` raises `DataCollectionThreadError` -/
+example : (Fine.run { cfgF3 with aliveCheck := true } opsF3 (Fine.roundRobin 24)).rpc = .raisedT := by
+  decide +kernel
+
+end fine
+
 /-! ### file formats: for every partition of the message list into `write()` batches plus the `finalize()` batch -/
 
 open Pyrtma.DataLog.Fmt in
@@ -167,6 +409,82 @@ theorem ql_file_of_batches (H off : Nat) (f : List (List FMsg)) (hne : f ≠ [])
     (by rw [e]; exact hd)
   simpa [qlReadsBack, e] using this
 
+/-! ### the last sentence of the property: handshake and formatters composed
+
+For every configuration, every operation list (every placement of arrivals, flush deadlines, sub-division
+deadlines, pause / resume, stop) and every schedule: the bytes the formatter model produces for the sequence of
+`write` / `finalize` calls each file of a data set received, read back with the package's readers and
+concatenated in file order, are exactly the accepted messages.  `Enc` is opaque; each theorem names what it needs
+of it. -/
+
+open Pyrtma.DataLog.Fmt in
+/-- **Raw**: reading all files of a data set frame by frame yields the accepted messages, in order — whatever
+number of files sub-division produced, whatever batches the flushes cut — provided every header has the fixed
+size `H > 0` and announces its payload's length (`wfMsg`). -/
+theorem raw_files_read_back (c : Cfg) (hf : c.finFirst = true) (ops : List RecOp) (sched : List Tid)
+    (hdone : (run c ops sched).rpc = .done) (i : Nat) (hi : i < c.n)
+    (H off : Nat) (hH : 0 < H) (e : Enc) (hwf : ∀ m, wfMsg H off (e.frame m)) :
+    rawFilesReadBack H off ((accepted (c.sel i) false ops).map e.frame)
+      (((run c ops sched).ds i).fileBatches.map (renderRaw e)) = true := by
+  have h := (run_inv c ops hf sched).at_done hdone i hi
+  unfold rawFilesReadBack
+  rw [DataLog.raw_files_read_back H off hH e hwf, h]
+  simp
+
+open Pyrtma.DataLog.Fmt in
+/-- **Quicklogger**: every file (file header, message headers, offset table, data block) read with the model of
+`QLReader.load`, results concatenated in file order: the accepted messages' headers and payloads — provided
+`wfMsg` and that the counters fit their 32-bit fields. -/
+theorem ql_files_read_back (c : Cfg) (hf : c.finFirst = true) (ops : List RecOp) (sched : List Tid)
+    (hdone : (run c ops sched).rpc = .done) (i : Nat) (hi : i < c.n)
+    (H off : Nat) (e : Enc) (hwf : ∀ m, wfMsg H off (e.frame m)) (hH : H < 4294967296)
+    (hn : (accepted (c.sel i) false ops).length < 4294967296)
+    (hd : dataLen ((accepted (c.sel i) false ops).map e.frame) < 4294967296) :
+    qlFilesReadBack off ((accepted (c.sel i) false ops).map e.frame)
+      (((run c ops sched).ds i).fileBatches.map (renderQL H e)) = true := by
+  have h := (run_inv c ops hf sched).at_done hdone i hi
+  have := DataLog.ql_files_read_back H off e hwf hH ((run c ops sched).ds i) (by rw [h]; exact hn) (by rw [h]; exact hd)
+  unfold qlFilesReadBack
+  rw [this, h]
+  simp
+
+/-- **JSON lines**: every file consists of complete lines, one per message; all lines in file order are the
+accepted messages' JSON texts — provided no text contains a raw newline. -/
+theorem json_files_read_back (c : Cfg) (hf : c.finFirst = true) (ops : List RecOp) (sched : List Tid)
+    (hdone : (run c ops sched).rpc = .done) (i : Nat) (hi : i < c.n)
+    (e : Enc) (hnl : ∀ m, '\n' ∉ e.text m) :
+    jsonFilesReadBack ((accepted (c.sel i) false ops).map e.text)
+      (((run c ops sched).ds i).fileBatches.map (renderJson e)) = true := by
+  have h := (run_inv c ops hf sched).at_done hdone i hi
+  obtain ⟨h1, h2⟩ := DataLog.json_files_read_back e hnl ((run c ops sched).ds i)
+  simp only [jsonFilesReadBack, Bool.and_eq_true, List.all_eq_true, beq_iff_eq]
+  exact ⟨h1, by rw [h2, h]⟩
+
+open Pyrtma.DataLog.Fmt in
+/-- … and decode line by line to the messages, for every decoder that inverts the encoder (hypothesis
+`hdec`: `Message.from_json ∘ to_json = id`, C10's subject; injectivity of the encoder is all that is used). -/
+theorem json_lines_decode_to_messages (c : Cfg) (hf : c.finFirst = true) (ops : List RecOp) (sched : List Tid)
+    (hdone : (run c ops sched).rpc = .done) (i : Nat) (hi : i < c.n)
+    (e : Enc) (hnl : ∀ m, '\n' ∉ e.text m) (dec : List Char → Option Msg) (hdec : ∀ m, dec (e.text m) = some m) :
+    (((((run c ops sched).ds i).fileBatches.map (renderJson e)).map (fun f => (splitLines [] f).1)).flatten).map dec
+      = (accepted (c.sel i) false ops).map some := by
+  have h := (run_inv c ops hf sched).at_done hdone i hi
+  rw [(DataLog.json_files_read_back e hnl ((run c ops sched).ds i)).2, h, List.map_map]
+  exact List.map_congr_left (fun m _ => hdec m)
+
+open Pyrtma.DataLog.Fmt in
+/-- **Empty files** (a data set that selects nothing, a sub-division right before `stop()`, a run with no
+arrival): whatever number of empty `write([])` calls preceded `finalize([])`, the quicklogger file is the bare
+24-byte header with all counters zero, and reads back as no message. -/
+theorem ql_empty_file (H : Nat) (parts : List (List FMsg)) (hp : parts.flatten = []) (off : Nat) :
+    qlFile H parts [] = (qlCanonHdr H []).bytes ∧ (qlFile H parts []).length = 24 ∧
+      qlRead off (qlFile H parts []) = [] := by
+  have e : qlFile H parts [] = (qlCanonHdr H []).bytes := by
+    rw [qlFile_eq, hp]; simp [qlCanon, offsetsFrom]
+  refine ⟨e, by rw [e]; simp, ?_⟩
+  rw [e]
+  simp [qlRead, qlCanonHdr, QLHdr.bytes, le32, unle32, chunks, dataLen, hdrLen, qlHdrSize]
+
 /-! ### non-vacuity -/
 
 /-- the same schedule with the repaired order: `stop()` returns and both messages are there -/
@@ -189,5 +507,52 @@ example :
     let m3 : FMsg := ⟨[3, 0, 0, 0, 1, 0, 0, 0], [9]⟩
     qlRead 4 (qlFile 8 [[m1], [m2]] [m3]) = [m1, m2, m3] ∧ qlFile 8 [[m1], [m2]] [m3] = qlFile 8 [] [m1, m2, m3] ∧
     (qlFile 8 [[m1], [m2]] [m3]).length = 24 + 24 + 12 + 3 := by decide +kernel
+
+/-- a concrete encoder: 8-byte header (id, payload length), payload of 0-2 bytes, decimal text -/
+def encEx : Enc :=
+  { frame := fun m => ⟨[m.id % 256, 0, 0, 0, m.ty % 3, 0, 0, 0], List.replicate (m.ty % 3) (m.id % 256)⟩,
+    text := fun m => (toString m.id).toList }
+
+open Pyrtma.DataLog.Fmt in
+/-- composition, all three formats: the session of the second example leaves two files for data set 0 (the second
+one empty: 24 bytes of quicklogger header); read back and concatenated they are messages 1 and 3 -/
+example :
+    let c : Cfg := { n := 2, sel := fun i => if i = 0 then .all else .only [1], interval := fun i => if i = 0 then 30 else 0 }
+    let ops : List RecOp := [.update 16 ⟨1, 0⟩, .pause 1, .update 1 ⟨2, 1⟩, .resume 1, .update 20 ⟨3, 1⟩, .tick 20]
+    let d := (run c ops (roundRobin 40)).ds 0
+    d.fileBatches = [[[⟨1, 0⟩], [⟨3, 1⟩], []], [[]]] ∧
+    (d.fileBatches.map (renderQL 8 encEx)).map List.length = [24 + 16 + 8 + 1, 24] ∧
+    qlFilesReadBack 4 ([⟨1, 0⟩, ⟨3, 1⟩].map encEx.frame) (d.fileBatches.map (renderQL 8 encEx)) = true ∧
+    rawFilesReadBack 8 4 ([⟨1, 0⟩, ⟨3, 1⟩].map encEx.frame) (d.fileBatches.map (renderRaw encEx)) = true ∧
+    jsonFilesReadBack [['1'], ['3']] (d.fileBatches.map (renderJson encEx)) = true := by decide +kernel
+
+section fine_nonvacuity
+open Pyrtma.DataLog.Fine
+
+/-- fine granularity, quicklogger + sub-division and a plain data set with a selection, a pause; the schedule
+lets the writer run three accesses for every access of the recorder: `stop()` returns, three files in all -/
+example :
+    let c : Fine.Cfg := { n := 2, sel := fun i => if i = 0 then .all else .only [1],
+                          interval := fun i => if i = 0 then 30 else 0, kind := fun i => if i = 0 then .ql else .plain }
+    let ops : List RecOp := [.update 16 ⟨1, 0⟩, .pause 1, .update 1 ⟨2, 1⟩, .resume 1, .update 20 ⟨3, 1⟩, .tick 20]
+    let s := Fine.run c ops ((List.replicate 60 [Fine.Tid.R, .W, .W, .W]).flatten ++ Fine.roundRobin 40)
+    s.rpc = .done ∧ (s.ds 0).fileLogs = [[⟨1, 0⟩, ⟨3, 1⟩], []] ∧ (s.ds 1).fileLogs = [[⟨3, 1⟩]] ∧
+    ((s.ds 0).files 0).log1 = [⟨1, 0⟩, ⟨3, 1⟩] := by decide +kernel
+
+/-- the premise of `fine_no_swap_under_writer` is met with the recorder in the middle of an `update`: after
+`R×7, W×4, R×2` the writer is between two accesses of `formatter.write` for data set 0 while the recorder is
+about to append the second message to `rbuf` -/
+example :
+    let s := Fine.run { cfgF3 with fault := fun _ => false } opsF3
+      (List.replicate 7 .R ++ List.replicate 4 .W ++ List.replicate 2 .R)
+    s.wpc = .call 0 ∧ s.rpc = .uAppend 0 ∧ s.over = false := by decide +kernel
+
+/-- the premise of `fine_failure_is_never_silent` is met by a failure in `stop()`'s own `finalize` -/
+example :
+    let s := Fine.run { cfgF3 with fault := fun k => k == 1 } opsF3 (Fine.roundRobin 60)
+    firedB { cfgF3 with fault := fun k => k == 1 } s = true ∧ s.rpc = .raisedIO ∧ s.wpc ≠ .dead := by
+  decide +kernel
+
+end fine_nonvacuity
 
 end Pyrtma.C17
